@@ -339,6 +339,23 @@ func run(c Case, k *ev.Case) *ev.Failure {
 				time.Sleep(200 * time.Microsecond)
 				continue
 			}
+			// the counters are read again AFTER the look at the connection: a Read holds the connection's lock while it counts the
+			// message it hands over, so "nothing pending" seen above implies the counts below include everything handed over. (An
+			// earlier version read the counts first and could miss a ping taken in between - 1 false alarm in 300 000 thorough cases
+			// under load.) A newer connection may have appeared meanwhile: then look again.
+			w.mu.Lock()
+			handed, pings = len(w.handed), w.pings
+			pongs = 0
+			for _, a := range w.accepted {
+				if a.msg == "pong" {
+					pongs++
+				}
+			}
+			newer := w.incs[len(w.incs)-1] != cur
+			w.mu.Unlock()
+			if newer {
+				continue
+			}
 		}
 		if len(got) >= handed && pongs >= pings {
 			reached = true
